@@ -340,9 +340,9 @@ Proof.
   pose proof (hull_half_nonneg ac nx Hx) as R0. pose proof (hull_half_nonneg ac ny Hy) as R1. fold r0 in R0. fold r1 in R1.
   apply dd2_hull; [exact R0|exact R1|]. split.
   - assert (E : this (1 + c * g00)%Qc - 1 == this c * this g00) by (rewrite this_add, this_mul; cbn; ring).
-    unfold dd_row2. rewrite E, !this_mul. now apply dd_row2_scale.
+    unfold dd_row2. rewrite E, (this_mul c g01), (this_mul c h0). now apply dd_row2_scale.
   - assert (E : this (1 + c * g11)%Qc - 1 == this c * this g11) by (rewrite this_add, this_mul; cbn; ring).
-    unfold dd_row2. rewrite E, !this_mul. now apply dd_row2_scale.
+    unfold dd_row2. rewrite E, (this_mul c g10), (this_mul c h1). now apply dd_row2_scale.
 Qed.
 
 Theorem expv3_diag_dominant ac nx ny nz (scale : Qc) inverse k (g00 g01 g02 h0 g10 g11 g12 h1 g20 g21 g22 h2 : Qc) :
@@ -364,11 +364,11 @@ Proof.
   unfold G. rewrite (hone_plus3_H3 QcF QcF_field). cbn [fadd fmul f0 f1 QcF T].
   pose proof (hull_half_nonneg ac nx Hx) as R0. pose proof (hull_half_nonneg ac ny Hy) as R1.
   pose proof (hull_half_nonneg ac nz Hz) as R2. fold r0 in R0. fold r1 in R1. fold r2 in R2.
-  apply dd3_hull; [exact R0|exact R1|exact R2|]. repeat split.
+  apply dd3_hull; [exact R0|exact R1|exact R2|]. split; [|split].
   - assert (E : this (1 + c * g00)%Qc - 1 == this c * this g00) by (rewrite this_add, this_mul; cbn; ring).
-    unfold dd_row3. rewrite E, !this_mul. now apply dd_row3_scale.
+    unfold dd_row3. rewrite E, (this_mul c g01), (this_mul c g02), (this_mul c h0). now apply dd_row3_scale.
   - assert (E : this (1 + c * g11)%Qc - 1 == this c * this g11) by (rewrite this_add, this_mul; cbn; ring).
-    unfold dd_row3. rewrite E, !this_mul. now apply dd_row3_scale.
+    unfold dd_row3. rewrite E, (this_mul c g10), (this_mul c g12), (this_mul c h1). now apply dd_row3_scale.
   - assert (E : this (1 + c * g22)%Qc - 1 == this c * this g22) by (rewrite this_add, this_mul; cbn; ring).
-    unfold dd_row3. rewrite E, !this_mul. now apply dd_row3_scale.
+    unfold dd_row3. rewrite E, (this_mul c g20), (this_mul c g21), (this_mul c h2). now apply dd_row3_scale.
 Qed.
